@@ -1,6 +1,8 @@
 import Gimli.Lemmas.WLine
 import Gimli.Lemmas.Leb
 import Gimli.Lemmas.WLineHeader
+import Gimli.Lemmas.WLineHeaderV5
+import Gimli.Props.C04
 /-!
 # C13 — Written line programs read back to exactly the rows that were generated
 
@@ -15,7 +17,7 @@ Quantifiers: every `LineEncoding` (`line_base`, `line_range`, `minimum_instructi
 every previous row and every next row, under the hypotheses stated in each theorem.
 -/
 namespace Gimli.Props.C13
-open Gimli Gimli.Line Gimli.WLine
+open Gimli Gimli.Line Gimli.WLine Gimli.Spec.Line
 
 /-- the header parameters a reader parses from what `LineProgram::write` emits for `e`
 (`OPCODE_BASE = 13`, the fixed `standard_opcode_lengths`) -/
@@ -680,9 +682,8 @@ theorem sequence_roundtrip (m : Mode) (en : Endian) (format : Format) (addrSize 
 
 /-! ## the unit header, versions 2–4 -/
 
-/-- **A written version 2–4 header parses back** — partial (versions 2–4 with inline strings; the
-version 5 tables with their entry formats and the `.debug_str`/`.debug_line_str` forms are covered
-by the byte-exact correspondence and the read-back oracle only). For every program whose
+/-- **A written version 2–4 header parses back** (version 5: `header_written_parses_v5`; all
+versions from the success of `write`: `header_written_parses`). For every program whose
 parameters a reader accepts (`EncReadable`: byte-sized non-zero min_inst_len / max_ops /
 line_range, `max_ops = 1` before version 4), whose include directories (all but the working
 directory, which is not emitted) and file names are non-empty inline strings without NUL, whose
@@ -692,7 +693,7 @@ serialisation, `header_length`, `unit_length`): `LineProgram::write` returns exa
 `LineProgramHeader::parse` on those bytes returns the writer's parameters, the include
 directories in order, **the file table entry for entry (name, directory index, timestamp, size)**,
 and the instruction bytes as the program. -/
-theorem header_written_parses_partial (en : Endian) (m : Mode) (p : Prog) (uver : Nat) (tabs : Tabs)
+theorem header_written_parses_v4 (en : Endian) (m : Mode) (p : Prog) (uver : Nat) (tabs : Tabs)
     (cd cn : Option Bytes) (prog hl il : Bytes)
     (he : EncReadable p.enc)
     (hds : ∀ d ∈ p.dirs.drop 1, InlineOk d) (hfs : ∀ f ∈ p.files, InlineOk f.name ∧ FileFits f)
@@ -720,6 +721,142 @@ theorem header_written_parses_partial (en : Endian) (m : Mode) (p : Prog) (uver 
     (fun f hf => (hfs f hf).1) prog hl il hprog hhl hil, ?_⟩
   exact parseHeader_v4_layout en p.format p.addrSize cd cn p.enc ⟨hv2, hv4, ‹_›, ‹_›, ‹_›, ‹_›, hv3, ‹_›⟩
     (p.dirs.drop 1) p.files prog il hl hds hfs hhl hil hsmall
+
+/-! ## the unit header, version 5 -/
+
+/-- **A written version 5 header parses back.** For every version 5 program whose parameters a
+reader accepts (`EncReadable5`: byte-sized non-zero min_inst_len / max_ops / line_range, line_base
+in `i8`; address size 1/2/4/8), whose inline strings have no NUL and whose file fields fit (`u64`
+directory index / timestamp / size, a 16-byte MD5 — `FileOk5`), whatever the string forms
+(**inline `DW_FORM_string`, `DW_FORM_line_strp`, `DW_FORM_strp`** for directories, file names and
+sources, the directory table in the form of directory 0, the file names in the form of file 0, the
+sources in the form of the first source), whichever of the optional fields the program carries
+(**`file_has_timestamp`, `file_has_size`, `file_has_md5`, `file_has_source`**: 16 entry formats),
+files with and without a source (a missing source is written as the empty string, which `write`
+adds to the string table: `tabs'` extends `tabs`): **if `LineProgram::write` succeeds**, its output
+is exactly the §6.2.4 encoding (`Spec.Line.encodeHeaderV5`) of the abstract header `headerV5Of` —
+directory_entry_format `(DW_LNCT_path, form)`, one field per directory; file_name_entry_format
+`path, directory_index[, timestamp][, size][, MD5][, LLVM_source]`, the fields of every file in
+that order — followed by the serialised instructions, and **C04's `LineProgramHeader::parse`
+(`header_roundtrip_v5`) returns**: the writer's parameters and address size, both entry formats,
+**every directory including directory 0** (inline, or the offset of its content in the string
+table — `refOff_resolves`: the C string at that offset of the written table is the directory),
+**the file table entry for entry** (`FileEnt.toEntry5`: path, directory index, and timestamp /
+size / MD5 / source where the format announces them, the reader's defaults where not), and the
+instruction bytes as the program; `comp_dir` / `comp_name` are not used. Side conditions that
+always hold in the code: the string sections and the unit are smaller than 2^64 bytes
+(`TabsSmall`, `hsmall`), fewer than 2^64 directories and files. -/
+theorem header_written_parses_v5 (en : Endian) (m : Mode) (p : Prog) (uver asz : Nat) (tabs tabs' : Tabs)
+    (cd cn : Option Bytes) (bytes : Bytes)
+    (he : EncReadable5 p.enc) (hasz : p.addrSize = 1 ∨ p.addrSize = 2 ∨ p.addrSize = 4 ∨ p.addrSize = 8)
+    (hds : ∀ d ∈ p.dirs, NulFree d) (hfs : ∀ f ∈ p.files, FileOk5 f) (hsm : TabsSmall tabs')
+    (hcount : p.dirs.length < 2 ^ 64 ∧ p.files.length < 2 ^ 64) (hsmall : bytes.length < 2 ^ 64)
+    (hw : p.write en m uver p.addrSize tabs = .ok (bytes, tabs')) :
+    Tabs.le tabs tabs' ∧
+    ∃ prog ul hdl, writeInstrs en 5 p.addrSize p.instrs = .ok prog ∧
+      encodeHeaderV5 (headerV5Of en p tabs' prog) = .ok bytes ∧
+      parseHeader en asz cd cn bytes =
+        .ok { p := readerParams en p.format p.addrSize p.enc, unitLength := ul, headerLength := hdl,
+              dirFormat := [(1, (dirFormOf p).code)], dirs := p.dirs.map (attrOf tabs'),
+              fileFormat := fileFormatOf p (fileFormOf p) (firstSourceForm p.files),
+              files := p.files.map (FileEnt.toEntry5 p tabs' (firstSourceForm p.files)),
+              program := prog, compDir := none, compFile := none } := by
+  obtain ⟨prog, hprog, henc, hwf, hle⟩ := write_v5_layout en m p uver p.addrSize tabs tabs' bytes he hasz hds hfs hsm
+    hcount hsmall hw
+  refine ⟨hle, prog, (encodeBodyV5 (headerV5Of en p tabs' prog)).length,
+    (encodeFieldsV5 (headerV5Of en p tabs' prog)).length, hprog, henc, ?_⟩
+  have := Gimli.Props.C04.header_roundtrip_v5 (headerV5Of en p tabs' prog) hwf asz cd cn bytes [] henc
+  rw [List.append_nil, headerV5Of_expected en p tabs' prog (fun f hf => (hfs f hf).2.2.1)] at this
+  exact this
+
+/-! ## the unit header, every version -/
+
+/-- the header a reader gets from a written program: versions 2–4 (directory 0 and file 0 are the
+caller's `comp_dir` / `comp_name`, the tables are inline strings) and version 5 (the tables carry
+entry formats and directory 0; strings are inline or offsets into `tabs'`) -/
+def writtenHeader (en : Endian) (p : Prog) (tabs' : Tabs) (prog : Bytes) (ul hdl : Nat) (cd cn : Option Bytes) :
+    Header :=
+  if p.enc.version ≤ 4 then
+    { p := readerParams en p.format p.addrSize p.enc, unitLength := ul, headerLength := hdl,
+      dirFormat := [], dirs := (p.dirs.drop 1).map (fun d => AttrVal.string d.val),
+      fileFormat := [], files := p.files.map FileEnt.toEntry, program := prog, compDir := cd,
+      compFile := cn.map fun n => { path := .string n, dirIndex := 0, timestamp := 0, size := 0,
+                                     md5 := List.replicate 16 0, source := none } }
+  else
+    { p := readerParams en p.format p.addrSize p.enc, unitLength := ul, headerLength := hdl,
+      dirFormat := [(1, (dirFormOf p).code)], dirs := p.dirs.map (attrOf tabs'),
+      fileFormat := fileFormatOf p (fileFormOf p) (firstSourceForm p.files),
+      files := p.files.map (FileEnt.toEntry5 p tabs' (firstSourceForm p.files)),
+      program := prog, compDir := none, compFile := none }
+
+/-- what `header_written_parses` asks of the program, per version: the hypotheses of
+`header_written_parses_v4` / `header_written_parses_v5` -/
+def WriteReadable (p : Prog) : Prop :=
+  (p.enc.version ≤ 4 → EncReadable p.enc ∧ (∀ d ∈ p.dirs.drop 1, InlineOk d) ∧
+    ∀ f ∈ p.files, InlineOk f.name ∧ FileFits f) ∧
+  (5 ≤ p.enc.version → EncReadable5 p.enc ∧ (p.addrSize = 1 ∨ p.addrSize = 2 ∨ p.addrSize = 4 ∨ p.addrSize = 8) ∧
+    (∀ d ∈ p.dirs, NulFree d) ∧ (∀ f ∈ p.files, FileOk5 f) ∧ p.dirs.length < 2 ^ 64 ∧ p.files.length < 2 ^ 64)
+
+/-- **A written header parses back — versions 2, 3, 4 and 5.** For every program that is
+`WriteReadable` (parameters a reader accepts; versions ≤ 4: non-empty NUL-free inline strings;
+version 5: any mix of inline / `line_strp` / `strp` strings, any of the optional timestamp / size /
+MD5 / source fields), both byte orders and formats, both build modes: **if `LineProgram::write`
+returns `bytes`, then the instructions serialise to some `prog` and C04's
+`LineProgramHeader::parse` on `bytes` returns `writtenHeader`** — the writer's parameters, the
+directories in order, the file table entry for entry, and `prog` as the program. (Versions 2–4
+also in the forward direction — `write` succeeds when its three fallible steps do —:
+`header_written_parses_v4`; version 5 with the §6.2.4 encoding spelled out:
+`header_written_parses_v5`.) -/
+theorem header_written_parses (en : Endian) (m : Mode) (p : Prog) (uver : Nat) (tabs tabs' : Tabs)
+    (cd cn : Option Bytes) (bytes : Bytes)
+    (hr : WriteReadable p) (hsm : TabsSmall tabs') (hsmall : bytes.length < 2 ^ 64)
+    (hw : p.write en m uver p.addrSize tabs = .ok (bytes, tabs')) :
+    ∃ prog ul hdl, writeInstrs en p.enc.version p.addrSize p.instrs = .ok prog ∧
+      parseHeader en p.addrSize cd cn bytes = .ok (writtenHeader en p tabs' prog ul hdl cd cn) := by
+  by_cases hv4 : p.enc.version ≤ 4
+  · obtain ⟨he, hds, hfs⟩ := hr.1 hv4
+    have he' := he
+    obtain ⟨hv2, _, _, _, _, _, hv3, _⟩ := he'
+    -- read the three fallible steps off the success of `write`
+    have hw' := hw
+    unfold Prog.write at hw'
+    have c2 : ¬ (p.enc.version < 2 ∨ p.enc.version > 5) := by omega
+    have c3 : ¬ (p.enc.version < 4 ∧ p.enc.maxOps ≠ 1) := by
+      intro h; exact h.2 (hv3 (by omega))
+    have c5 : ¬ p.enc.version ≥ 5 := by omega
+    simp only [c2, c3, c5, ↓reduceIte, hv4, writeStrs_inline en p.format p.enc.version m tabs _ hds,
+      writeFilesV4_inline en p.format p.enc.version m tabs _ (fun f hf => (hfs f hf).1), Out.bind_ok, Out.pure_eq,
+      List.append_nil] at hw'
+    have hbody : ([UInt8.ofNat p.enc.minInstLen] ++ (if p.enc.version ≥ 4 then [UInt8.ofNat p.enc.maxOps] else []) ++
+        [UInt8.ofNat (b2n p.enc.defaultIsStmt), UInt8.ofNat (Leb.ofI64 p.enc.lineBase % 256),
+          UInt8.ofNat p.enc.lineRange, UInt8.ofNat opcodeBase] ++ stdLens ++
+        (dirBytes (List.drop 1 p.dirs) ++ [0] ++ fileBytes p.files ++ [0])) =
+        headerBodyV4 p.enc (dirBytes (p.dirs.drop 1) ++ 0 :: (fileBytes p.files ++ [0])) := by
+      unfold headerBodyV4; simp
+    rw [hbody, if_neg (by simp)] at hw'
+    obtain ⟨hl, hhl, hw'⟩ := (bind_eq_ok _ _ _).mp hw'
+    obtain ⟨prog, hprog, hw'⟩ := (bind_eq_ok _ _ _).mp hw'
+    obtain ⟨il, hil, hw'⟩ := (bind_eq_ok _ _ _).mp hw'
+    simp only [Out.ok.injEq, Prod.mk.injEq] at hw'
+    obtain ⟨hbytes, _⟩ := hw'
+    have hsm' : (Ints.toBytes en 2 p.enc.version ++ hl ++
+        headerBodyV4 p.enc (dirBytes (p.dirs.drop 1) ++ 0 :: (fileBytes p.files ++ [0])) ++ prog).length < 2 ^ 64 := by
+      rw [← hbytes] at hsmall
+      simp only [List.length_append] at hsmall ⊢
+      omega
+    obtain ⟨bytes0, ul, hdl, hw0, hparse⟩ := header_written_parses_v4 en m p uver tabs cd cn prog hl il he hds hfs
+      hprog hhl hil hsm'
+    rw [hw] at hw0
+    simp only [Out.ok.injEq, Prod.mk.injEq] at hw0
+    refine ⟨prog, ul, hdl, hprog, ?_⟩
+    rw [hw0.1, hparse]
+    simp [writtenHeader, hv4]
+  · obtain ⟨he, hasz, hds, hfs, hc1, hc2⟩ := hr.2 (by omega)
+    obtain ⟨_, prog, ul, hdl, hprog, _, hparse⟩ := header_written_parses_v5 en m p uver p.addrSize tabs tabs' cd cn
+      bytes he hasz hds hfs hsm ⟨hc1, hc2⟩ hsmall hw
+    refine ⟨prog, ul, hdl, by rw [he.1]; exact hprog, ?_⟩
+    rw [hparse]
+    simp [writtenHeader, hv4]
 
 /-! ## non-vacuity: the hypotheses are satisfiable, and every opcode choice occurs -/
 
@@ -800,4 +937,45 @@ example : progExReadBack.map (fun hd => hd.files.map (fun f => (f.path, f.dirInd
     some [(.string [0x61], 1, 7, 300), (.string [0x62], 0, 0, 0)] := by decide
 example : progExReadBack.map (·.program) =
     some [0, 9, 2, 0, 0x10, 0, 0, 0, 0, 0, 0, 22, 2, 8, 0, 1, 1] := by decide
+
+/-- a version 5 program: directories as `DW_FORM_line_strp`, file names inline, MD5 and source
+fields; the first file has a `DW_FORM_strp` source, the second none (written as the empty string,
+which `write` adds to `.debug_str`) -/
+def progEx5 : Prog :=
+  { prog0 with
+    enc := { enc4 with version := 5 }, hasMd5 := true, hasSource := true,
+    dirs := [⟨.lineStrp, [0x2f, 0x77]⟩, ⟨.lineStrp, [0x73]⟩],
+    files := [{ name := ⟨.string, [0x61]⟩, dir := 1,
+                info := { timestamp := 7, size := 300, md5 := List.replicate 16 0xab, source := some ⟨.strp, [0x78]⟩ } },
+              { name := ⟨.string, [0x62]⟩, dir := 0, info := FileInfo.default }],
+    instrs := [.setAddress (some 0x1000), .special 22, .advancePc 8, .endSequence] }
+
+def tabsEx5 : Tabs := { lineStrings := [[0x2f, 0x77], [0x73]], strings := [[0x78]] }
+
+instance (s : LineStr) : Decidable (InlineOk s) := by unfold InlineOk; infer_instance
+instance (f : FileEnt) : Decidable (FileFits f) := by unfold FileFits; infer_instance
+instance (p : Prog) : Decidable (WriteReadable p) := by
+  unfold WriteReadable; infer_instance
+
+example : WriteReadable progEx5 := by decide
+/-- what the reader gets from the written header of `progEx5`, and the string tables afterwards -/
+def progEx5ReadBack : Option (Header × Tabs) :=
+  match progEx5.write .little .debug 5 8 tabsEx5 with
+  | .ok (bytes, tabs') =>
+    match parseHeader .little 4 none none bytes with
+    | .ok hd => some (hd, tabs')
+    | _ => none
+  | _ => none
+
+example : progEx5ReadBack.map (·.2) = some { lineStrings := [[0x2f, 0x77], [0x73]], strings := [[0x78], []] } := by
+  decide
+example : progEx5ReadBack.map (·.1.p) = some (readerParams .little .dwarf32 8 { enc4 with version := 5 }) := by decide
+example : progEx5ReadBack.map (fun x => (x.1.dirFormat, x.1.dirs)) =
+    some ([(1, 0x1f)], [.lineStrp 0, .lineStrp 3]) := by decide
+example : progEx5ReadBack.map (fun x => x.1.fileFormat) = some [(1, 0x08), (2, 0x0f), (5, 0x1e), (0x2001, 0x0e)] := by
+  decide
+example : progEx5ReadBack.map (fun x => x.1.files.map (fun f => (f.path, f.dirIndex, f.timestamp))) =
+    some [(.string [0x61], 1, 0), (.string [0x62], 0, 0)] := by decide
+example : progEx5ReadBack.map (fun x => x.1.files.map (fun f => (f.md5.head?, f.source))) =
+    some [(some 0xab, some (.strp 0)), (some 0, some (.strp 2))] := by decide
 end Gimli.Props.C13
